@@ -48,3 +48,21 @@ def deepcopy_on_store(index, registry):
         out.append({"name": "scan::deepcopy_on_store::" + qual.split(".")[-2] + "." + qual.split(".")[-1], "kind": "coverage", "top": True, "result": "unsat" if ok else "sat", "secs": 0.0,
                     "model": {"function": qual, "found": fi is not None}})
     return out
+
+
+def lean_lemma(index, registry):
+    """The mathematical half of C14: Lean 4 + Mathlib checks lemmas/Ltmads.lean (about 10 s warm, a few minutes cold)."""
+    import os
+    import subprocess
+    import time
+    src = os.path.join(os.path.dirname(os.path.dirname(os.path.abspath(__file__))), "lemmas", "Ltmads.lean")
+    t0 = time.time()
+    try:
+        p = subprocess.run(["lake", "env", "lean", src], cwd="/opt/veriftools/mathlib4", capture_output=True, text=True, timeout=1500)
+        out = (p.stdout + p.stderr)
+        ok = p.returncode == 0 and "error" not in out and "sorry" not in out
+        res = "unsat" if ok else "sat"
+    except Exception as ex:  # noqa: BLE001
+        out, res = repr(ex), "unknown"
+    return [{"name": "lemma::Ltmads.lean::det_ltmads_ne_zero+pos_span_of_basis", "kind": "lemma", "top": True, "result": res, "secs": round(time.time() - t0, 1),
+             "backend": "lean4+mathlib", "reason": out[-400:] if res != "unsat" else None, "model": {"lean_output": out[-400:]}}]
